@@ -111,9 +111,11 @@ fn dir_snapshot(root: &Path) -> Vec<(PathBuf, Vec<u8>)> {
     v
 }
 
-fn check_server(s: &Srv, out: &mut Out) {
+fn check_server(s: &Srv, out: &mut Out, which: &str) {
+    let want = |ps: &[&str]| which == "all" || ps.contains(&which);
     let escapes = ["../secret.txt", "/../secret.txt", "..\\secret.txt", "sub/../../secret.txt", "\\/..//secret.txt", "./../secret.txt"];
     // ---- C03 / C06: read side ------------------------------------------------------------------------------
+    if want(&["C03", "C06"]) {
     for name in escapes {
         let c = client();
         c.send_to(&rrq(name, vec![]), s.addr).unwrap();
@@ -146,7 +148,9 @@ fn check_server(s: &Srv, out: &mut Out) {
             other => out.add("C03", s, format!("RRQ \"/sub\\\\inner.txt\" (inside the send directory) was answered with {:?} instead of DATA 1 with the file", other.map(|x| verif_replay::fmt_packet(&x.0)))),
         }
     }
+    }
     // ---- C09: option negotiation on a read ---------------------------------------------------------------------
+    if want(&["C09"]) {
     {
         let c = client();
         let req = vec![opt(OptionType::BlockSize, 1024), opt(OptionType::TransferSize, 0), opt(OptionType::Windowsize, 2), opt(OptionType::Timeout, 3)];
@@ -195,7 +199,9 @@ fn check_server(s: &Srv, out: &mut Out) {
             }
         }
     }
+    }
     // ---- C03 / C06: write side -----------------------------------------------------------------------------
+    if want(&["C03", "C06", "C09"]) {
     let before = dir_snapshot(&s.root);
     for name in escapes.iter().map(|e| e.replace("secret.txt", "planted.txt")) {
         let c = client();
@@ -277,7 +283,9 @@ fn check_server(s: &Srv, out: &mut Out) {
             other => out.add("C09", s, format!("plain WRQ was answered with {:?} instead of ACK 0", other.map(|x| verif_replay::fmt_packet(&x.0)))),
         }
     }
+    }
     // ---- C12: two interleaved transfers stay separate; an endpoint may start another transfer after its first one ------
+    if want(&["C12"]) {
     {
         // lock-step download of `name` by socket `c`, one step per call: returns the bytes received so far
         fn step(c: &UdpSocket, srv: SocketAddr, state: &mut (Option<SocketAddr>, u16, Vec<u8>, bool)) {
@@ -321,7 +329,9 @@ fn check_server(s: &Srv, out: &mut Out) {
             out.add("C12", s, format!("an endpoint that had completed one download asked for sub/inner.txt again: received {:?} instead of the file", sb2.2));
         }
     }
+    }
     // ---- C12: non-request packets from an endpoint that owns no transfer -------------------------------------------
+    if want(&["C12"]) {
     for p in [Packet::Ack(1), Packet::Data { block_num: 1, data: vec![1, 2, 3] }, Packet::Oack(vec![]), Packet::Error { code: ErrorCode::NotDefined, msg: "x".into() }] {
         let c = client();
         c.send_to(&p.serialize().unwrap(), s.addr).unwrap();
@@ -330,7 +340,9 @@ fn check_server(s: &Srv, out: &mut Out) {
             out.add("C12", s, format!("{} from an endpoint that owns no transfer was answered with {:?} instead of ERROR 4", verif_replay::fmt_packet(&p), r.map(|x| verif_replay::fmt_packet(&x.0))));
         }
     }
+    }
     // ---- C05: hostile datagrams, then a valid request must still be served --------------------------------------------
+    if want(&["C05"]) {
     let mut hostile: Vec<(String, Vec<u8>)> = vec![
         ("empty".into(), vec![]), ("1 byte".into(), vec![0]), ("DATA 2 bytes".into(), vec![0, 3]), ("DATA 3 bytes".into(), vec![0, 3, 0]),
         ("ACK 3 bytes".into(), vec![0, 4, 0]), ("ERROR 2 bytes".into(), vec![0, 5]), ("ERROR 3 bytes".into(), vec![0, 5, 0]), ("ERROR code 9".into(), vec![0, 5, 0, 9, 0]),
@@ -384,6 +396,7 @@ fn check_server(s: &Srv, out: &mut Out) {
             }
         }
     }
+    }
 }
 
 fn main() {
@@ -399,7 +412,7 @@ fn main() {
                     n += 1;
                     let cfg = Cfg { distinct, trailing_sep, read_only, overwrite, single };
                     let s = start(&base, n, &cfg);
-                    check_server(&s, &mut out);
+                    check_server(&s, &mut out, &which);
                 }
             }
         }
